@@ -119,9 +119,9 @@ Section Db.
   Definition lim (s : list byte) : option Z := let z := read_Z s in if z <=? 0 then None else Some z.
 
   Definition show_rows (x : flow * list record) : list (list byte) :=
-    map (fun r => B"row " ++ show_record r) (rev (snd x)) ++ [show_flow (fst x)].
+    map (fun r => B"row " ++ show_record r) (rev_append (snd x) []) ++ [show_flow (fst x)].
   Definition show_trows (x : flow * list (Z * record)) : list (list byte) :=
-    map (fun r => B"row " ++ show_Z (fst r) ++ B" " ++ show_record (snd r)) (rev (snd x)) ++ [show_flow (fst x)].
+    map (fun r => B"row " ++ show_Z (fst r) ++ B" " ++ show_record (snd r)) (rev_append (snd x) []) ++ [show_flow (fst x)].
 
   Definition run_db (w : list (list byte)) : list (list byte) :=
     match w with
